@@ -459,7 +459,7 @@ func buildPKI(c chainCase) (*pki, error) {
 				if s.kt == kRSA {
 					a = x509.SHA1WithRSA
 				}
-				t.sha1Signed, t.faulty = true, true
+				t.sha1Signed, t.faulty = true, !sha1Allowed
 			}
 		}
 		if err := p.issue(t, int64(100+i), s, sk, tw, a); err != nil {
@@ -557,7 +557,7 @@ func (p *pki) linkOK(cache sigCache, child, parent *truth) (bool, string) {
 	if !ok {
 		return false, "signature on " + child.name + " does not verify under the key of " + parent.name
 	}
-	if child.sha1Signed {
+	if child.sha1Signed && !sha1Allowed {
 		return false, child.name + " is signed with SHA-1"
 	}
 	return true, ""
